@@ -1,6 +1,6 @@
 (* P19b - values, part 2: the value invariant depends on a few views of the state; frame lemma; complete() and the finished-task step. *)
 From LLB Require Import Engine.Rules Engine.Spec Engine.SpecInv1 Engine.Impl Engine.ImplProofs Engine.ImplProofsSticky Engine.ImplProofsInv
-  Engine.ImplProofsInv2 Engine.ImplProofsInv3 Engine.ImplProofsInv7 Engine.ImplProofsInv8 Engine.ImplProofsInv9 Engine.ImplProofsAvail
+  Engine.ImplProofsMono Engine.ImplProofsInv2 Engine.ImplProofsInv3 Engine.ImplProofsInv7 Engine.ImplProofsInv8 Engine.ImplProofsInv9 Engine.ImplProofsAvail
   Engine.ImplProofsProto Engine.ImplVal1.
 From Coq Require Import Arith Lia.
 Local Open Scope N_scope.
@@ -10,7 +10,7 @@ Definition core (ti : tinfo) := (ti_slots ti, ti_branched ti, ti_pending ti, ti_
 Definition tcore (s : istate) (t : key) := option_map core (task_of s t).
 
 Lemma tcore_some s s' t ti : tcore s' t = tcore s t -> task_of s' t = Some ti -> exists ti0, task_of s t = Some ti0 /\ core ti0 = core ti.
-Proof. unfold tcore. intros H Hg. rewrite Hg in H. destruct (task_of s t) as [ti0|]; [|discriminate]. inversion H. eauto. Qed.
+Proof. unfold tcore. intros H Hg. rewrite Hg in H. destruct (task_of s t) as [ti0|]; [|discriminate]. cbn [option_map] in H. exists ti0. split; auto. congruence. Qed.
 
 Section Val.
 Variable rules : key -> rule.
@@ -27,14 +27,14 @@ Lemma Oreq_frame s s' rq : (forall t, tcore s' t = tcore s t) -> is_inreq s' = i
 Proof.
   intros Ht Hi Hf [H|[(t' & ti' & Hg & Hin)|H]]; [left; congruence| |right; right; congruence].
   right. left. assert (Ht' := Ht t'). unfold tcore in Ht'. rewrite Hg in Ht'. destruct (task_of s' t') as [x|] eqn:E; [|discriminate].
-  inversion Ht' as [Hc]. unfold core in Hc. inversion Hc. exists t', x. split; auto. congruence.
+  cbn [option_map] in Ht'. assert (Hc : core x = core ti') by congruence. unfold core in Hc. inversion Hc. exists t', x. split; auto. congruence.
 Qed.
 
 Lemma rq_wf_frame s s' rq : (forall t, tcore s' t = tcore s t) -> rq_wf s rq -> rq_wf s' rq.
 Proof.
   intros Ht H t Hk Ho. destruct (H t Hk Ho) as (H1 & ti & Hg & Hl). split; auto.
   assert (Ht' := Ht t). unfold tcore in Ht'. rewrite Hg in Ht'. destruct (task_of s' t) as [x|] eqn:E; [|discriminate].
-  inversion Ht' as [Hc]. unfold core in Hc. inversion Hc. exists x. split; auto. congruence.
+  cbn [option_map] in Ht'. assert (Hc : core x = core ti) by congruence. unfold core in Hc. inversion Hc. exists x. split; auto. congruence.
 Qed.
 
 Lemma task_ok_frame s s' t ti ti' : core ti' = core ti -> (forall rq, Oreq s rq -> Oreq s' rq) ->
@@ -72,5 +72,243 @@ Proof.
     + now rewrite Hft.
   - rewrite Hi, (in_progress_of_kind s s' root (Hk root)), Hk. exact V9.
   - now rewrite He.
+Qed.
+(* ---------- complete() ---------- *)
+Lemma tcore_discovered s t d t' : tcore (discovered s t d) t' = tcore s t'.
+Proof.
+  unfold discovered. destruct (aget (is_tasks s) t) as [ti|] eqn:Hg; [|reflexivity]. destruct (negb _); [reflexivity|].
+  rewrite (mod_ti_some _ _ _ _ Hg). unfold tcore, task_of. autorewrite with iv. rewrite aget_aset.
+  destruct (N.eqb t' t) eqn:E; auto. apply N.eqb_eq in E. subst t'. now rewrite Hg.
+Qed.
+Lemma tcore_fold_discovered t ds : forall s t', tcore (fold_left (fun s d => discovered s t d) ds s) t' = tcore s t'.
+Proof. induction ds as [|d ds IH]; intros s t'; cbn [fold_left]; auto. now rewrite IH, tcore_discovered. Qed.
+
+Lemma discovered_fields s t d : is_inreq (discovered s t d) = is_inreq s /\ is_usedb (discovered s t d) = is_usedb s.
+Proof.
+  unfold discovered. destruct (aget (is_tasks s) t) as [ti|] eqn:Hg; [|auto]. destruct (negb _); [auto|].
+  rewrite (mod_ti_some _ _ _ _ Hg). now autorewrite with iv.
+Qed.
+Lemma fold_discovered_fields t ds : forall s, is_inreq (fold_left (fun s d => discovered s t d) ds s) = is_inreq s /\
+  is_usedb (fold_left (fun s d => discovered s t d) ds s) = is_usedb s.
+Proof.
+  induction ds as [|d ds IH]; intros s; cbn [fold_left]; auto. destruct (IH (discovered s t d)) as [-> ->]. apply discovered_fields.
+Qed.
+
+Lemma completed_result_value sg ep r v : res_value (completed_result sg ep r v) = Some v.
+Proof.
+  unfold completed_result. cbn zeta. destruct (res_value r) as [old|] eqn:E; [|reflexivity].
+  destruct (value_eqb old v) eqn:E2; [|reflexivity]. cbn [res_value]. f_equal. now apply value_eqb_eq.
+Qed.
+
+Record finish_eff (s s' : istate) (t : key) (v : value) : Prop := {
+  fe_kind : forall k, kind_of s' k = kind_of s k;
+  fe_res : forall k, k <> t -> res_of s' k = res_of s k;
+  fe_val : res_value (res_of s' t) = Some v;
+  fe_built : res_builtAt (res_of s' t) = res_builtAt (res_of s t);
+  fe_other : forall t', t' <> t -> tcore s' t' = tcore s t';
+  fe_self : forall ti, task_of s t = Some ti -> exists ti', task_of s' t = Some ti' /\ ti_slots ti' = ti_slots ti /\
+              ti_branched ti' = ti_branched ti /\ ti_reqby ti' = ti_reqby ti /\ ti_pending ti' = None;
+  fe_in : is_inreq s' = is_inreq s; fe_fin : is_fininreq s' = is_fininreq s; fe_ts : is_toscan s' = is_toscan s;
+  fe_udb : is_usedb s' = is_usedb s; fe_ep : is_epoch s' = is_epoch s;
+  fe_ft : is_fintasks s' = t :: is_fintasks s;
+  fe_comp : kind_of s t = KComputing
+}.
+
+Lemma task_finish_eff s t ti v : task_of s t = Some ti -> ti_pending ti = Some v -> nf (task_finish rules s t) ->
+  finish_eff s (task_finish rules s t) t v.
+Proof.
+  intros Hg Hp Hn. unfold task_finish in *. unfold task_of in Hg. rewrite Hg, Hp in *.
+  set (s1 := set_ti s t (ti_with_pending None ti)) in *. set (s2 := fold_left (fun s d => discovered s t d) (r_disc (rules t)) s1) in *.
+  set (s3 := iemit s2 (EComplete t v)) in *.
+  pose proof (keeps_fold (fun s d => discovered s t d) (fun s d => keeps_discovered s t d) (r_disc (rules t)) s1) as (_ & K2 & _ & K4 & K5 & K6 & _ & K8).
+  fold s2 in K2, K4, K5, K6, K8.
+  assert (Hk3 : kind_of s3 t = KComputing).
+  { unfold task_is_complete in Hn. destruct (kind_eqb (kind_of s3 t) KComputing) eqn:E; [now apply kind_eqb_eq|]. cbn [negb] in Hn. now apply nf_fault in Hn. }
+  unfold task_is_complete. rewrite Hk3. cbn [kind_eqb negb]. cbn zeta.
+  set (r' := completed_result _ _ _ v).
+  assert (R3 : forall k, rinfo_of s3 k = rinfo_of s k) by (intros k; change (rinfo_of s3 k) with (rinfo_of s2 k); now rewrite K2).
+  assert (RR : forall k, rinfo_of (upd_fintasks (set_res s3 t r') (t :: is_fintasks (set_res s3 t r'))) k = if N.eqb k t then ri_with_res r' (rinfo_of s t) else rinfo_of s k).
+  { intros k. autorewrite with iv. rewrite !R3. reflexivity. }
+  assert (TC : forall t', tcore (upd_fintasks (set_res s3 t r') (t :: is_fintasks (set_res s3 t r'))) t' = tcore s1 t').
+  { intros t'. change (tcore (upd_fintasks _ _) t') with (tcore s2 t'). apply tcore_fold_discovered. }
+  constructor.
+  - intros k. unfold kind_of. rewrite RR. destruct (N.eqb k t) eqn:E; auto. apply N.eqb_eq in E. now subst.
+  - intros k Hne. unfold res_of. rewrite RR. apply N.eqb_neq in Hne. now rewrite Hne.
+  - unfold res_of. rewrite RR, N.eqb_refl. cbn [ri_with_res ri_res]. apply completed_result_value.
+  - unfold res_of. rewrite RR, N.eqb_refl. cbn [ri_with_res ri_res]. unfold r'. rewrite completed_result_built. unfold res_of. now rewrite R3.
+  - intros t' Hne. rewrite TC. unfold s1, tcore, task_of. autorewrite with iv. rewrite aget_aset. apply N.eqb_neq in Hne. now rewrite Hne.
+  - intros ti0 Hg0. unfold task_of in Hg0. rewrite Hg in Hg0. inversion Hg0. subst ti0.
+    assert (H1 : tcore s1 t = Some (core (ti_with_pending None ti))) by (unfold s1, tcore, task_of; autorewrite with iv; now rewrite aget_aset_same).
+    rewrite <- TC in H1. unfold tcore in H1. destruct (task_of _ t) as [x|]; [|discriminate]. cbn [option_map] in H1.
+    assert (Hc : core x = core (ti_with_pending None ti)) by congruence. unfold core in Hc. inversion Hc. exists x. repeat split; auto.
+  - autorewrite with iv. change (is_inreq s3) with (is_inreq s2). unfold s2. now destruct (fold_discovered_fields t (r_disc (rules t)) s1) as [-> _].
+  - autorewrite with iv. change (is_fininreq s3) with (is_fininreq s2). now rewrite K6.
+  - autorewrite with iv. change (is_toscan s3) with (is_toscan s2). now rewrite K5.
+  - autorewrite with iv. change (is_usedb s3) with (is_usedb s2). unfold s2. now destruct (fold_discovered_fields t (r_disc (rules t)) s1) as [_ ->].
+  - autorewrite with iv. change (is_epoch s3) with (is_epoch s2). now rewrite K8.
+  - autorewrite with iv. change (is_fintasks s3) with (is_fintasks s2). now rewrite K4.
+  - unfold kind_of. rewrite <- R3. exact Hk3.
+Qed.
+
+Lemma Oreq_sub s s' : incl (is_inreq s) (is_inreq s') -> incl (is_fininreq s) (is_fininreq s') ->
+  (forall t' ti', task_of s t' = Some ti' -> exists ti'', task_of s' t' = Some ti'' /\ incl (ti_reqby ti') (ti_reqby ti'')) ->
+  forall rq, Oreq s rq -> Oreq s' rq.
+Proof.
+  intros Hi Hf Ht rq [H|[(t' & ti' & Hg & Hin)|H]]; [left; auto| |right; right; auto].
+  right. left. destruct (Ht t' ti' Hg) as (x & Hx & Hinc). exists t', x. auto.
+Qed.
+
+Lemma rq_wf_sub s s' rq : (forall t ti, task_of s t = Some ti -> exists ti', task_of s' t = Some ti' /\ (length (ti_slots ti) <= length (ti_slots ti'))%nat) ->
+  rq_wf s rq -> rq_wf s' rq.
+Proof.
+  intros Ht H t Hk Ho. destruct (H t Hk Ho) as (H1 & ti & Hg & Hl). split; auto. destruct (Ht t ti Hg) as (x & Hx & Hle). exists x. split; auto. lia.
+Qed.
+
+Lemma tcore_task s s' t ti : tcore s' t = tcore s t -> task_of s t = Some ti -> exists ti', task_of s' t = Some ti' /\ core ti' = core ti.
+Proof. intros H Hg. symmetry in H. destruct (tcore_some s' s t ti H Hg) as (x & Hx & Hc). eauto. Qed.
+
+Lemma core_fields a b : core a = core b -> ti_slots a = ti_slots b /\ ti_branched a = ti_branched b /\ ti_pending a = ti_pending b /\ ti_reqby a = ti_reqby b.
+Proof. unfold core. intros H. inversion H. auto. Qed.
+
+Lemma VInv_finish root s s' t ti v : VInv root s -> task_of s t = Some ti -> ti_pending ti = Some v -> finish_eff s s' t v -> VInv root s'.
+Proof.
+  intros [V1 V2 V3 V4 V5 V6 V7 V8 V9 V10] Hg Hp [E1 E2 E3 E4 E5 E6 E7 E8 E9 E10 E11 E12 E13].
+  destruct (E6 ti Hg) as (ti' & Hg' & Es & Eb & Er & Ep).
+  assert (Hcv : Some v = cvK t) by (apply (k_pend _ _ _ _ _ _ _ (V8 t ti Hg)); exact Hp).
+  assert (Hfw : forall t0 x, task_of s t0 = Some x -> exists y, task_of s' t0 = Some y /\ ti_slots y = ti_slots x /\ ti_reqby y = ti_reqby x).
+  { intros t0 x Hx. destruct (N.eq_dec t0 t) as [->|Hne].
+    - rewrite Hg in Hx. inversion Hx. subst x. exists ti'. auto.
+    - destruct (tcore_task s s' t0 x (E5 t0 Hne) Hx) as (y & Hy & Hc). apply core_fields in Hc. exists y. tauto. }
+  assert (Hbw : forall t0 y, task_of s' t0 = Some y -> exists x, task_of s t0 = Some x /\ ti_slots y = ti_slots x /\ ti_reqby y = ti_reqby x).
+  { intros t0 y Hy. destruct (N.eq_dec t0 t) as [->|Hne].
+    - rewrite Hg' in Hy. inversion Hy. subst y. exists ti. auto.
+    - destruct (tcore_some s s' t0 y (E5 t0 Hne) Hy) as (x & Hx & Hc). apply core_fields in Hc. exists x. split; auto. split; symmetry; tauto. }
+  assert (O1 : forall rq, Oreq s rq -> Oreq s' rq).
+  { apply Oreq_sub; [rewrite E7; apply incl_refl|rewrite E8; apply incl_refl|]. intros t0 x Hx. destruct (Hfw t0 x Hx) as (y & Hy & _ & Hr). exists y. split; auto. rewrite Hr. apply incl_refl. }
+  assert (O2 : forall rq, Oreq s' rq -> Oreq s rq).
+  { apply Oreq_sub; [rewrite E7; apply incl_refl|rewrite E8; apply incl_refl|]. intros t0 y Hy. destruct (Hbw t0 y Hy) as (x & Hx & _ & Hr). exists x. split; auto. rewrite Hr. apply incl_refl. }
+  constructor.
+  - congruence.
+  - congruence.
+  - intros k. rewrite E1. apply V3.
+  - intros k. rewrite E1. intros Hk. destruct (N.eq_dec k t) as [->|Hne]; [rewrite E4|rewrite (E2 k Hne)]; auto.
+  - intros k. rewrite E1. intros Hk. assert (Hne : k <> t) by (intros ->; congruence). rewrite (E2 k Hne), E11. auto.
+  - intros rq Ho. apply (rq_wf_sub s s'); [|apply V6, O2, Ho]. intros t0 x Hx. destruct (Hfw t0 x Hx) as (y & Hy & Hs & _). exists y. split; auto. rewrite Hs. lia.
+  - intros rq. rewrite E8, E1. apply V7.
+  - intros t0 y Hy. destruct (N.eq_dec t0 t) as [->|Hne].
+    + rewrite Hg' in Hy. inversion Hy. subst y. destruct (V8 t ti Hg) as [K1 K2 K3 K4 K5 K6]. constructor; rewrite ?Es, ?Eb, ?Ep; auto.
+      * intros i Hu Hn. destruct (K3 i Hu Hn) as (rq & H1 & H2). exists rq. split; auto.
+      * discriminate.
+      * intros _. rewrite E3. exact Hcv.
+    + destruct (tcore_some s s' t0 y (E5 t0 Hne) Hy) as (x & Hx & Hc).
+      apply (task_ok_frame s s' t0 x y); auto.
+      * rewrite E12. intros [H|H]; [congruence|auto].
+      * now rewrite (E2 t0 Hne).
+  - rewrite E7, E1, (in_progress_of_kind s s' root (E1 root)). exact V9.
+  - now rewrite E11.
+Qed.
+
+Lemma VInv_task_finish root s t : VInv root s -> nf (task_finish rules s t) -> VInv root (task_finish rules s t).
+Proof.
+  intros HV Hn. destruct (task_of s t) as [ti|] eqn:Hg.
+  - destruct (ti_pending ti) as [v|] eqn:Hp.
+    + eapply VInv_finish; eauto. now apply task_finish_eff with (ti := ti).
+    + unfold task_finish. unfold task_of in Hg. now rewrite Hg, Hp.
+  - unfold task_finish. unfold task_of in Hg. now rewrite Hg.
+Qed.
+
+(* ---------- one finished task (no database) ---------- *)
+Lemma finish_task_rinfo_nodb s t rest ti k : is_usedb s = false -> aget (is_tasks s) t = Some ti -> kind_of s t = KComputing ->
+  rinfo_of (finish_task (upd_fintasks s rest) t) k =
+  if N.eqb k t then ri_append_deps (ti_disc ti) (ri_complete (is_epoch s) (rinfo_of s t)) else rinfo_of s k.
+Proof.
+  intros Hu Hg Hk. unfold finish_task. change (aget (is_tasks (upd_fintasks s rest)) t) with (aget (is_tasks s) t). rewrite Hg. cbn zeta.
+  change (kind_of (upd_fintasks s rest) t) with (kind_of s t). rewrite Hk. cbn [kind_eqb check].
+  set (s2 := mod_ri (set_complete (upd_fintasks s rest) t) t (ri_append_deps (ti_disc ti))).
+  destruct (push_dummies_views (ti_disc ti) s2) as (P1 & _ & _ & _ & _ & _ & _ & _ & _ & _ & _ & P12 & _).
+  unfold db_write. rewrite P12. change (is_usedb s2) with (is_usedb s). rewrite Hu.
+  unfold retire_task, wake_task_waiters. autorewrite with iv. rewrite P1. unfold s2, set_complete. autorewrite with iv. rewrite N.eqb_refl.
+  destruct (N.eqb k t); reflexivity.
+Qed.
+
+Lemma finish_task_misc_nodb s t rest ti : is_usedb s = false -> aget (is_tasks s) t = Some ti -> kind_of s t = KComputing ->
+  let s' := finish_task (upd_fintasks s rest) t in is_usedb s' = false /\ is_epoch s' = is_epoch s.
+Proof.
+  intros Hu Hg Hk. cbn zeta. unfold finish_task. change (aget (is_tasks (upd_fintasks s rest)) t) with (aget (is_tasks s) t). rewrite Hg. cbn zeta.
+  change (kind_of (upd_fintasks s rest) t) with (kind_of s t). rewrite Hk. cbn [kind_eqb check].
+  set (s2 := mod_ri (set_complete (upd_fintasks s rest) t) t (ri_append_deps (ti_disc ti))).
+  destruct (push_dummies_views (ti_disc ti) s2) as (_ & _ & _ & _ & _ & _ & _ & _ & _ & _ & _ & P12 & _ & _ & P15).
+  unfold db_write. rewrite P12. change (is_usedb s2) with (is_usedb s). rewrite Hu.
+  unfold retire_task, wake_task_waiters. autorewrite with iv. rewrite P12, P15. auto.
+Qed.
+
+Lemma no_deferred_fb c s t ti : InvS c s -> (forall k, kind_of s k <> KScanning) -> aget (is_tasks s) t = Some ti -> ti_deferred ti = [].
+Proof.
+  intros HS Hk Hg. pose proof (s_ok_tdef c s HS t ti Hg) as H. destruct (ti_deferred ti) as [|rq l]; auto.
+  inversion H as [|x y Hx Hy]. destruct Hx as (Hs & _). exfalso. exact (Hk _ Hs).
+Qed.
+
+Lemma VInv_step_fintask root s : Inv rules ctx0 s -> VInv root s -> VInv root (step_fintask s).
+Proof.
+  intros HI HV. unfold step_fintask. destruct (is_fintasks s) as [|t rest] eqn:Hq; auto.
+  pose proof HI as (Hn & HT & HII & HS).
+  destruct (t_ft ctx0 s HT t) as (ti & Hg & Hk & Hp); [rewrite Hq; now left|].
+  destruct HV as [V1 V2 V3 V4 V5 V6 V7 V8 V9 V10].
+  assert (R : retired s (finish_task (upd_fintasks s rest) t) t ti rest (map dummy_of (ti_disc ti))).
+  { apply finish_task_retired; auto; [apply HT|]. intros k. destruct (N.eq_dec k t) as [->|Hne]; [left; rewrite Hk; discriminate|now right]. }
+  pose proof (finish_task_rinfo_nodb s t rest ti) as RI. destruct (finish_task_misc_nodb s t rest ti V2 Hg Hk) as (Mu & Me).
+  set (s' := finish_task (upd_fintasks s rest) t) in *.
+  destruct R as [rt_nd0 rt_kind0 rt_paused0 rt_deferred0 rt_deps0 rt_sum_p0 rt_sum_d0 rt_tasks0 rt_toscan0 rt_fininreq0 rt_inreq0 rt_dummies0 rt_ready0 rt_fintasks0 rt_out0 rt_nf0].
+  assert (Hdef : ti_deferred ti = []) by (eapply no_deferred_fb; eauto; intros k; apply V3).
+  assert (Hres : forall k, k <> t -> res_of s' k = res_of s k).
+  { intros k Hne. unfold res_of. rewrite (RI k V2 Hg Hk). apply N.eqb_neq in Hne. now rewrite Hne. }
+  assert (Hrt : res_value (res_of s' t) = res_value (res_of s t) /\ res_builtAt (res_of s' t) = is_epoch s).
+  { unfold res_of. rewrite (RI t V2 Hg Hk), N.eqb_refl. split; reflexivity. }
+  (* the finished task has no request left *)
+  assert (Hw0 : ti_wait ti = 0%nat) by (apply (t_cw ctx0 s HT t ti Hg Hk)).
+  assert (Hz : (cnt_i t (cx_fi ctx0) + outstanding_count s t = 0)%nat) by (rewrite <- (i_wc rules ctx0 s HII t ti Hg); exact Hw0).
+  destruct (no_ireq_of s t (cx_fi ctx0) Hz (t_nd_rules ctx0 s HT) (t_nd_tasks ctx0 s HT)) as (_ & Z2 & _ & Z4 & Z5).
+  assert (Htask : forall t0, t0 <> t -> task_of s' t0 = task_of s t0).
+  { intros t0 Hne. unfold task_of. rewrite rt_tasks0, aget_adel. apply N.eqb_neq in Hne. now rewrite Hne. }
+  assert (Htask' : forall t0 x, task_of s' t0 = Some x -> t0 <> t /\ task_of s t0 = Some x).
+  { intros t0 x. unfold task_of. rewrite rt_tasks0, aget_adel. destruct (N.eqb t0 t) eqn:E; [discriminate|]. apply N.eqb_neq in E. auto. }
+  assert (O1 : forall rq, Oreq s rq -> Oreq s' rq).
+  { intros rq [H|[(t0 & x & Hx & Hin)|H]].
+    - left. rewrite rt_inreq0. apply in_or_app. now left.
+    - destruct (N.eq_dec t0 t) as [->|Hne].
+      + right. right. rewrite rt_fininreq0. apply in_or_app. left. apply -> in_rev. unfold task_of in Hx. rewrite Hg in Hx. now inversion Hx.
+      + right. left. exists t0, x. rewrite (Htask t0 Hne). auto.
+    - right. right. rewrite rt_fininreq0. apply in_or_app. now right. }
+  assert (O2 : forall rq, Oreq s' rq -> iq_task rq = None \/ (Oreq s rq /\ iq_task rq <> Some t)).
+  { intros rq [H|[(t0 & x & Hx & Hin)|H]].
+    - rewrite rt_inreq0 in H. apply in_app_or in H. destruct H as [H|H]; [right; split; [now left|now apply Z2]|left; now apply rt_dummies0].
+    - destruct (Htask' t0 x Hx) as [Hne Hx']. right. split; [right; left; eauto|eapply Z4; eauto].
+    - rewrite rt_fininreq0 in H. apply in_app_or in H. destruct H as [H|H].
+      + apply in_rev in H. right. split; [right; left; exists t, ti; auto|eapply Z4; eauto].
+      + right. split; [right; right; auto|now apply Z5]. }
+  constructor.
+  - rewrite rt_toscan0, Hdef, V1. reflexivity.
+  - exact Mu.
+  - intros k. rewrite rt_kind0. destruct (N.eqb k t); [split; discriminate|apply V3].
+  - intros k. rewrite rt_kind0. destruct (N.eqb k t) eqn:E; [intros H; now contradiction H|]. apply N.eqb_neq in E. rewrite (Hres k E). apply V4.
+  - intros k. rewrite rt_kind0, Me. destruct (N.eqb k t) eqn:E.
+    + apply N.eqb_eq in E. subst k. intros _. destruct Hrt as [-> ->]. split; auto.
+      apply (k_fin _ _ _ _ _ _ _ (V8 t ti Hg)). rewrite Hq. now left.
+    + apply N.eqb_neq in E. rewrite (Hres k E). apply V5.
+  - intros rq Ho t0 Ht0 Hord. destruct (O2 rq Ho) as [Hd|[Hold Hnt]]; [congruence|].
+    destruct (V6 rq Hold t0 Ht0 Hord) as (H1 & x & Hx & Hl). split; auto. exists x. split; auto.
+    rewrite Htask; auto. intros ->. congruence.
+  - intros rq. rewrite rt_fininreq0, rt_kind0. intros H. apply in_app_or in H. destruct (N.eqb (iq_input rq) t) eqn:E; auto.
+    destruct H as [H|H]; [|now apply V7]. apply in_rev in H.
+    destruct (i_pl_reqby rules ctx0 s HII t ti rq Hg H) as [Hin _]. rewrite Hin, N.eqb_refl in E. discriminate.
+  - intros t0 x Hx. destruct (Htask' t0 x Hx) as [Hne Hx'].
+    apply (task_ok_frame s s' t0 x x); auto.
+    + destruct rt_fintasks0 as [_ ->]. intros H. rewrite Hq. now right.
+    + now rewrite (Hres t0 Hne).
+  - destruct V9 as [H|[H|H]].
+    + left. rewrite rt_inreq0. apply in_or_app. now left.
+    + unfold is_in_progress in *. rewrite rt_kind0. destruct (N.eqb root t); auto.
+    + right. right. rewrite rt_kind0. destruct (N.eqb root t); auto.
+  - now rewrite Me.
 Qed.
 End Val.
